@@ -320,6 +320,8 @@ type Tree struct {
 	// undefined holds the names that are referenced but have no definition
 	// (link creates an empty stand-in rule for each).
 	undefined map[string]bool
+	// duplicates holds the second and later definitions of a rule name.
+	duplicates map[*node]bool
 
 	Generator       string
 	RuleNames       []*node
@@ -643,7 +645,7 @@ func (t *Tree) Compile(file string, args []string, out io.Writer) (err error) {
 			t.StructName = n.String()
 			t.StructVariables = n.Front().String()
 		case TypeRule:
-			if _, ok := t.Rules[n.String()]; !ok {
+			if first, ok := t.Rules[n.String()]; !ok {
 				expression := n.Front()
 				cp := expression.Copy()
 				expression.Init()
@@ -653,6 +655,12 @@ func (t *Tree) Compile(file string, args []string, out io.Writer) (err error) {
 
 				t.Rules[n.String()] = n
 				t.RuleNames = append(t.RuleNames, n)
+			} else if first != n && !t.duplicates[n] {
+				t.warn(fmt.Errorf("rule '%v' defined more than once", n))
+				if t.duplicates == nil {
+					t.duplicates = make(map[*node]bool)
+				}
+				t.duplicates[n] = true
 			}
 		}
 	}
@@ -661,7 +669,7 @@ func (t *Tree) Compile(file string, args []string, out io.Writer) (err error) {
 
 	/* second pass */
 	for _, n := range slices.Collect(t.Iterator()) {
-		if n.GetType() == TypeRule {
+		if n.GetType() == TypeRule && !t.duplicates[n] {
 			countsForRule := [TypeLast]uint{}
 			countsByRule[n.GetID()] = &countsForRule
 			t.link(&countsForRule, n, &counts, &countsByRule, n)
@@ -692,7 +700,7 @@ func (t *Tree) Compile(file string, args []string, out io.Writer) (err error) {
 	wg.Go(func() {
 		ruleReached := make([]bool, t.RulesCount)
 		for n := range t.Iterator() {
-			if n.GetType() == TypeRule {
+			if n.GetType() == TypeRule && !t.duplicates[n] {
 				t.checkRecursion(n, ruleReached)
 			}
 		}
@@ -1257,7 +1265,7 @@ func (t *Tree) Compile(file string, args []string, out io.Writer) (err error) {
 			continue
 		}
 		expression := element.Front()
-		if expression.GetType() == TypeNil || t.undefined[element.String()] {
+		if expression.GetType() == TypeNil || t.duplicates[element] || t.undefined[element.String()] {
 			// no code is emitted for these, so they take no label either
 			continue
 		}
@@ -1295,6 +1303,10 @@ func (t *Tree) Compile(file string, args []string, out io.Writer) (err error) {
 
 	for element := range t.Iterator() {
 		if element.GetType() != TypeRule {
+			continue
+		}
+		if t.duplicates[element] {
+			// only the first definition of a name is a rule of the parser
 			continue
 		}
 		expression := element.Front()
@@ -1343,6 +1355,10 @@ func (t *Tree) Compile(file string, args []string, out io.Writer) (err error) {
 			_print("\n   return false")
 		}
 		_print("\n  },")
+	}
+	for range len(t.duplicates) {
+		// keep the table as long as the rule count
+		_print("\n  nil,")
 	}
 	_print("\n }\n p.rules = _rules")
 	_print("\n return nil")
